@@ -186,6 +186,18 @@ def directed():
                                     R("stop", "wp.stop.cancelled"), R("stop", "stop.ret"), R("resize", "resize.ret")])
     # F12c: Resize of a pool that Stop is stopping closes the old queue without closeMu: a Submit in its send panics
     add("d_race_submit_panic", 1, [S(1), STOP(), RS(2), R("resize", "wp.rs.drained"), R("S1", "sub.ret")])
+    # time passes (longer than every configured tuning timeout) while a task waits behind the busy worker,
+    # then the worker becomes free: the waiting submitter must neither give up nor see its task run twice
+    SLEEP = {"a": "sleep"}
+    add("d_wait_behind_busy", 1, [S(1), R("S1", "wp.enq"), S(2, "exec"), R("S2", "wp.enq"), S(3), R("S3", "wp.enq"), SLEEP,
+                                  {"a": "open", "k": 1}, SLEEP, {"a": "open", "k": 2}, {"a": "open", "k": 3}])
+    # the same while Stop is waiting for the busy worker, and while Resize is
+    add("d_wait_during_stop", 1, [S(1, "exec"), R("S1", "wp.enq"), S(2, "exec"), R("S2", "wp.enq"), STOP(),
+                                  R("stop", "wp.stop.cancelled"), R("stop"), SLEEP, {"a": "open", "k": 1}])
+    add("d_wait_during_resize", 2, [S(1), R("S1", "wp.enq"), S(2), R("S2", "wp.enq"), S(3, "exec"), R("S3", "wp.enq"), S(4),
+                                    R("S4", "wp.enq"), RS(1), R("resize", "wp.stop.cas"), R("resize", "wp.stop.cancelled"),
+                                    R("resize"), SLEEP, {"a": "open", "k": 1}, {"a": "open", "k": 2}, R("resize"), R("resize"),
+                                    R("resize"), SLEEP])
     # plain regression scenarios (no finding involved)
     add("d_stop_busy", 1, [S(1), R("S1", "wp.enq"), S(2), R("S2", "wp.enq"), STOP(), R("stop", "wp.stop.cancelled"), R("stop"),
                            {"a": "open", "k": 1}])
@@ -210,6 +222,8 @@ def from_gen(d, name, rnd):
             steps.append({"a": "stop"})
         elif s["a"] == "resize":
             steps.append({"a": "resize", "n": s["n"]})
+        elif s["a"] == "sleep":
+            steps.append({"a": "sleep"})
     return {"name": name, "w0": d["w0"], "w1": d["w1"], "pauses": True, "settle": True, "auto": False, "steps": steps}
 
 
@@ -227,6 +241,7 @@ CONSTANTS
   Depth = %(depth)d
   MinBefore = %(minb)d
   DumpOn = "%(dump)s"
+  MaxTicks = 1
 %(rest)s
 CHECK_DEADLOCK FALSE
 """
@@ -283,7 +298,11 @@ def stress(ctx):
             steps.insert(rnd.randint(1, len(steps)), {"a": "resize", "n": w1})
         if rnd.random() < 0.75:
             steps.insert(rnd.randint(1, len(steps)), {"a": "stop"})
-        out.append({"name": "s_%d" % i, "w0": w0, "w1": w1, "pauses": False, "settle": False, "auto": True, "steps": steps})
+        sc = {"name": "s_%d" % i, "w0": w0, "w1": w1, "pauses": False, "settle": False, "auto": True, "steps": steps}
+        if i % 5 == 4:
+            # slow bodies (up to 4 x the configured timeouts): submitters queue behind busy workers for long
+            sc["bodyus"] = 80000
+        out.append(sc)
     return out
 
 
@@ -580,7 +599,9 @@ def _traces(ctx, fl, q, built, gen, build):
     ctx.cov["distinct_nontrivial"] = nontriv
     ctx.cov["rule"] = ("environment schedules (submit k / release a goroutine parked at a vhook pause point / open the gate of a "
                        "running task / Stop / Resize) generated by TLC from WorkerPoolGen for 1->2 and 2->1 workers and 4 tasks, "
-                       "the directed reproducers of F12/F12b/F12c, and seeded free-running stress histories under -race; a "
+                       "with 'time passes' steps longer than every configured tuning timeout (the pool is the one New() creates, "
+                       "reached through ExecuteWithWorker), the directed reproducers of F12/F12b/F12c, and seeded free-running "
+                       "stress histories (one in five with bodies slower than the timeouts) under -race; a "
                        "history is non-trivial when a Stop (external or inside Resize) closed a queue that still held tasks")
     ctx.cov["spec_actions_covered_by_impl"] = sorted({e["ev"] for h in allh for e in h if e["ev"].startswith("wp.")})
     for h in (allh[0], allh[4], hists[2 * len(dirs)] if len(hists) > 2 * len(dirs) else None):
